@@ -128,10 +128,18 @@ def Heap.setParent (h : Heap) (x p : Nat) : Heap :=
 /-- `setattr(obj_attr, attr_name, value)` -/
 def AVal.assign (v : Val) : AVal → AVal := fun _ => .one v
 
-/-- `attr_value.append(value)` on a list attribute (`_init_obj_attrs` made it a list) -/
+/-- `attr_value.append(value)` on a list attribute.  (`_init_obj_attrs` made every `*`/`+`
+attribute a list; for a non-list slot holding `None` the code first stores `[]`.  A non-list
+slot holding something else cannot occur for these operators; the model keeps the old value.) -/
 def AVal.append (v : Val) : AVal → AVal
   | .many vs => .many (vs ++ [v])
-  | .one _ => .many [v]
+  | .one .none => .many [v]
+  | .one w => .many [w, v]
+
+/-- the freshly allocated instance: attributes initialised (`_init_obj_attrs`), no parent yet,
+`_tx_position = node.position`, `_tx_position_end = node.position_end` -/
+def newObj (mm : Nat → List MetaAttr) (cls : Nat) (ks : List PT) : HObj :=
+  { cls := cls, parent := none, pos := posL ks, posEnd := endL ks (posL ks), attrs := (mm cls).map initAttr }
 
 mutual
 /-- `process_node(node)`; `none` = a Python exception (IndexError / KeyError / Multiple
@@ -146,10 +154,8 @@ def processNode (mm : Nat → List MetaAttr) : PT → St → Option (Val × St)
     | k :: k2 :: rest => processFirstNT mm (k :: k2 :: rest) s
   | .nt (.obj cls) ks, s =>
     let id := s.next
-    let o : HObj := { cls := cls, parent := none, pos := posL ks, posEnd := endL ks (posL ks),
-                      attrs := (mm cls).map initAttr }
     -- inst allocated, attributes initialised, span set, pushed on `_inst_stack`
-    let s1 : St := { heap := s.heap ++ [o], stack := id :: s.stack }
+    let s1 : St := { heap := s.heap ++ [newObj mm cls ks], stack := id :: s.stack }
     match processKids mm ks s1 with
     | none => none
     | some s2 =>
